@@ -204,10 +204,13 @@ T_CELLS = {
                        'iter(mode="next_and_back")', "range", "names"]),
     "G2": ("gapless", ['iter(mode="range")', "range"]),
     "G3": ("gapless", ['iter(mode="table")', "range"]),
+    "H3": ("holes", ['iter(mode="table_inline")']),
+    "G4": ("gapless", ['iter(mode="table_inline")']),
 }
 
 
-T_CELL_TAGS = {"H1": {"iter_nab"}, "G1": {"iter_nab"}, "H2": {"iter_table", "iter_wrap"}, "G3": {"iter_table", "iter_wrap"}, "G2": {"iter_range", "iter_wrap"}}
+T_CELL_TAGS = {"H1": {"iter_nab"}, "G1": {"iter_nab"}, "H2": {"iter_table", "iter_wrap"}, "G3": {"iter_table", "iter_wrap"}, "G2": {"iter_range", "iter_wrap"},
+               "H3": {"iter_inline", "iter_wrap"}, "G4": {"iter_inline", "iter_wrap"}}
 
 
 def t_cell_discs(repr_, shape, which):
